@@ -169,6 +169,9 @@ def family(t, sd):
                         items.append({'model': m, 'style': styles[ci % 3], 'allow_empty': True})
     for im, it in enumerate(gen.diverging_family(bounded=True)):
         items.append({'model': it['model'], 'style': styles[im % 3]})
+    for im, it in enumerate(gen.nested_family()):
+        if t == 'thorough' or im % 2 == 0:
+            items.append({'model': it['model'], 'style': styles[im % 3]})
     out = []
     for k_, it in enumerate(items):
         m = it['model']
